@@ -422,6 +422,16 @@ func c16Names(r *vp.InstResult) {
 	for _, n := range []string{"ID", "Address", "LastErr", "Latency", "Host", "Port"} {
 		add("na", "", "rpc named like a method of the node ("+n+")", gen.ServiceSpec{Service: "Svc", Messages: []string{"Req", "Resp"}, Methods: []gen.MethodSpec{{Name: n, In: "Req", Out: "Resp"}}})
 	}
+	// Go names that meet only after protogen's CamelCase conversion
+	add("na", "", "message my_svc next to service MySvc", gen.ServiceSpec{Service: "MySvc", Messages: []string{"Req", "Resp", "my_svc"}, Methods: []gen.MethodSpec{qc}})
+	add("na", "", "message StorageSvc next to service storage_svc", gen.ServiceSpec{Service: "storage_svc", Messages: []string{"Req", "Resp", "StorageSvc"}, Methods: []gen.MethodSpec{qc}})
+	for _, base := range []gen.MethodSpec{qc, {In: "Req", Out: "Resp", Quorumcall: true, Async: true}, {In: "Req", Out: "Resp", Correctable: true}, {In: "Req", Out: "Resp", Multicast: true}, {In: "Req", Out: "Resp", Unicast: true}, {In: "Req", Out: "Resp"}} {
+		a, b := base, base
+		a.Name, b.Name = "read", "Read"
+		add("na", "", "methods read and Read ("+base.Label()+")", gen.ServiceSpec{Service: "Svc", Messages: []string{"Req", "Resp"}, Methods: []gen.MethodSpec{a, b}})
+		b.Name = "r_ead"
+		add("na", "", "methods read and r_ead ("+base.Label()+")", gen.ServiceSpec{Service: "Svc", Messages: []string{"Req", "Resp"}, Methods: []gen.MethodSpec{a, b}})
+	}
 	// an enum next to the messages
 	add("legal", "", "file with an enum", gen.ServiceSpec{Service: "Svc", Messages: []string{"Req", "Resp"}, Enums: []string{"Kind"}, Methods: []gen.MethodSpec{qc}})
 	if err := compileAll(filepath.Join(buildDir, "scratch", "names"), cases); err != nil {
@@ -433,6 +443,88 @@ func c16Names(r *vp.InstResult) {
 	}
 	r.States, r.Steps = r.Execs, r.Execs
 	r.Sample = map[string]any{"service": "message named Configuration next to a quorum call", "class": "illegal (reserved)", "expected": "rejected with a diagnostic"}
+}
+
+// c16Declared: the identifier alphabet is taken from the generator's own output. A service with all legal
+// methods is generated once; every identifier that the emitted gorums file declares at package level
+// (types, functions, variables, constants) then becomes, in turn, the name of an extra message of that same
+// service. Whatever the plugin does with such a name - none of them is documented as reserved beyond the
+// four of doc/ - it must reject it with a diagnostic or emit a package that compiles.
+func c16Declared(r *vp.InstResult) {
+	legal := legalMethods()
+	mkSpec := func(pkg string, extra ...string) gen.ServiceSpec {
+		spec := gen.ServiceSpec{Pkg: pkg, Service: "Svc", Messages: append([]string{"Req", "Resp", "Custom"}, extra...)}
+		for i, m := range legal {
+			m.Name = fmt.Sprintf("M%d", i)
+			spec.Methods = append(spec.Methods, m)
+		}
+		return spec
+	}
+	base := &genCase{spec: mkSpec("declbase"), class: "legal", label: "service with all legal methods"}
+	if err := runPlugins(base, "protoc-gen-gorums", nil); err != nil {
+		r.Error = err.Error()
+		return
+	}
+	r.Execs++
+	idents := map[string]bool{}
+	for name, content := range base.res.Files {
+		f, err := parser.ParseFile(token.NewFileSet(), name, content, 0)
+		if err != nil {
+			continue // reported by the compile step
+		}
+		for _, d := range f.Decls {
+			switch d := d.(type) {
+			case *ast.FuncDecl:
+				if d.Recv == nil {
+					idents[d.Name.Name] = true
+				}
+			case *ast.GenDecl:
+				for _, sp := range d.Specs {
+					switch sp := sp.(type) {
+					case *ast.TypeSpec:
+						idents[sp.Name.Name] = true
+					case *ast.ValueSpec:
+						for _, n := range sp.Names {
+							idents[n.Name] = true
+						}
+					}
+				}
+			}
+		}
+	}
+	delete(idents, "_")
+	var names []string
+	for n := range idents {
+		if n != "" && n[0] >= 'A' && n[0] <= 'Z' && gen.GoCamelCase(n) == n { // a message's Go name is exported CamelCase
+			names = append(names, n)
+		}
+	}
+	sort.Strings(names)
+	cases := []*genCase{base}
+	for i, n := range names {
+		class, why := "na", ""
+		for _, res := range reservedIdents() {
+			if res == n {
+				class, why = "illegal", "reserved message name"
+			}
+		}
+		c := &genCase{spec: mkSpec(fmt.Sprintf("decl%d", i), n), class: class, why: why, label: "message named like the generated identifier " + n}
+		if err := runPlugins(c, "protoc-gen-gorums", nil); err != nil {
+			r.Error = err.Error()
+			return
+		}
+		r.Execs++
+		cases = append(cases, c)
+	}
+	if err := compileAll(filepath.Join(buildDir, "scratch", "declared"), cases); err != nil {
+		r.Error = err.Error()
+		return
+	}
+	for _, c := range cases {
+		judge(r, c)
+	}
+	r.States, r.Steps = r.Execs, r.Execs
+	r.Sample = map[string]any{"service": "all 22 legal methods plus a message named NewManager", "class": "not documented as reserved", "expected": "rejected with a diagnostic, or output that compiles", "identifiers_tried": len(names)}
 }
 
 func sameFiles(a, b map[string]string) (string, bool) {
@@ -868,7 +960,7 @@ func c16Zorums(r *vp.InstResult) {
 
 func init() {
 	checks["C16"] = &check{
-		rule:        "small-scope enumeration of proto service definitions fed to the plugin built from the working tree (requests built from synthesised descriptors, no protoc): (a) single-method services over the full lattice of 512 option combinations {quorumcall, async, correctable, multicast, unicast, per_node_arg, custom_return_type, client stream, server stream} x 4 message shapes {local, imported Empty in, imported Empty out, same message}; (b) two-method services over all 484 ordered pairs of the 22 legal combinations with shared and with distinct message types; (c) reserved and unusual identifier spellings for messages, services, methods, plus an enum; services whose request / response types are imported from a Go package named like one the generated or static code imports (encoding, fmt, gorums, context, proto, ...); (d) determinism: 3 plain runs and runs of a plugin whose map ranges are routed through a controlled iteration order {sorted, reversed, rotations} on legal single / two-method services, on a service whose types are spread over three imported packages, and on every proto file of the repository; (e) all 484 ordered pairs of legal single-method files with the same method name requested in ONE CodeGeneratorRequest, each output compared with a single-file run; oracle: legality model of doc/method-options.md - legal must be accepted and compile (go build of all emitted packages together with protoc-gen-go output against /repo), documented-illegal and reserved names must end with a diagnostic (not a Go panic), everything else must be rejected or compile; outputs byte-identical across runs and orders; an outcome is (class, plugin result class)",
+		rule:        "small-scope enumeration of proto service definitions fed to the plugin built from the working tree (requests built from synthesised descriptors, no protoc): (a) single-method services over the full lattice of 512 option combinations {quorumcall, async, correctable, multicast, unicast, per_node_arg, custom_return_type, client stream, server stream} x 4 message shapes {local, imported Empty in, imported Empty out, same message}; (b) two-method services over all 484 ordered pairs of the 22 legal combinations with shared and with distinct message types; (c) reserved and unusual identifier spellings for messages, services, methods, plus an enum; every identifier the emitted file of a service with all legal methods declares at package level, as the name of an extra message; services whose request / response types are imported from a Go package named like one the generated or static code imports (encoding, fmt, gorums, context, proto, ...); (d) determinism: 3 plain runs and runs of a plugin whose map ranges are routed through a controlled iteration order {sorted, reversed, rotations} on legal single / two-method services, on a service whose types are spread over three imported packages, and on every proto file of the repository; (e) all 484 ordered pairs of legal single-method files with the same method name requested in ONE CodeGeneratorRequest, each output compared with a single-file run; oracle: legality model of doc/method-options.md - legal must be accepted and compile (go build of all emitted packages together with protoc-gen-go output against /repo), documented-illegal and reserved names must end with a diagnostic (not a Go panic), everything else must be rejected or compile; outputs byte-identical across runs and orders; an outcome is (class, plugin result class)",
 		assumptions: []string{"descriptors are synthesised programmatically with gorums' extension numbers; protoc's own validation is not in the loop", "'compiles' = go build of the generated package with the protoc-gen-go output of the same file against /repo's runtime"},
 		gen: func(tier string) []instance {
 			var out []instance
@@ -887,6 +979,7 @@ func init() {
 			}
 			out = append(out, instance{"names", c16Names})
 			out = append(out, instance{"imported-package-names", c16Imports})
+			out = append(out, instance{"names-declared-by-the-generated-code", c16Declared})
 			dc := 4
 			for c := 0; c < dc; c++ {
 				out = append(out, instance{fmt.Sprintf("determinism/chunk%d-of-%d", c, dc), c16Determinism(c, dc)})
